@@ -100,6 +100,11 @@ class RecomputingDict(MutableMapping[RuleKey, AbstractStrategy]):
                 else:
                     rule = x
                 try:
+                    if rule.comb_class not in self.classdb or any(
+                        c not in self.classdb for c in rule.children
+                    ):
+                        # a stored rule only involves classes that have a label
+                        continue
                     start_label = self.classdb.get_label(rule.comb_class)
                     nonempty_children = tuple(
                         c for c in rule.children if not self.classdb.is_empty(c)
